@@ -2,6 +2,7 @@ package harness
 
 import (
 	"encoding/json"
+	"errors"
 	"fmt"
 	"sort"
 	"strings"
@@ -166,6 +167,14 @@ func (sessionEngine) Run(t *testing.T, batch string, tape *rt.Tape, runIdx uint6
 
 func runSessionPlan(t *testing.T, plan *SessionPlan, tape *rt.Tape, strat rt.Strategy, stratName string, sample map[string]any, trace func(string), after func(rt.Outcome), rec *RunRecord) RunRecord {
 	if why := describable(plan.Plugin); why != "" {
+		if plan.Features["c09"] && !strings.HasPrefix(why, "meta-schema: ") {
+			// the description was accepted by the meta-schema but the schema rebuilt from it is unusable (links,
+			// roots, defaults): that is the hello clause of C09 itself, not a premise
+			rec.Outcome = "violation"
+			rec.Violations = append(rec.Violations, Violation{"C09", "mismatch", "own-description-not-rebuildable: " + stripVolatile(why), "the plugin's own self-description (what the hello message carries) cannot be rebuilt: " + why})
+			rec.SchedSig = fmt.Sprintf("%x", fnvString(why))
+			return *rec
+		}
 		rec.Outcome = "excluded"
 		rec.Reason = "recipe not self-describable (pure-schema matter, not this check's): " + why
 		return *rec
@@ -293,13 +302,18 @@ func describable(pr *PluginRecipe) (why string) {
 	p := BuildPlugin(pr, newRecorder(nil))
 	ser, err := p.SelfSerialize()
 	if err != nil {
-		return err.Error()
+		return "meta-schema: " + err.Error()
 	}
 	n, err := Norm(ser)
 	if err != nil {
-		return err.Error()
+		return "meta-schema: " + err.Error()
 	}
 	if _, err := schema.UnserializeSchema(n); err != nil {
+		var ce *schema.ConstraintError
+		if errors.As(err, &ce) {
+			// the meta-schema rejects the form of the description (the pure clause of C09)
+			return "meta-schema: " + err.Error()
+		}
 		return err.Error()
 	}
 	return ""
